@@ -136,6 +136,94 @@ func init() {
 					}
 					fmt.Fprintf(&sb, "/-- the `switch` of the watcher goroutine: (case condition, body), in source order -/\ndef watcherSwitch : List (String × String) := [%s]\n\n",
 						strings.Join(rows, ",\n  "))
+					// The same switch as DATA: for every case that tests a bit of event.Op
+					//   (bit of the fsnotify Op, "the case also requires s.ReOpen", signals raised: (only under `if s.ReOpen`, channel))
+					// with channel 0 = s.eventWrite, 1 = s.eventDelete.  Cases that do not look at event.Op (closed channel,
+					// another file's name) are left out; any other shape of condition or body is untranslatable.
+					opBits := map[string]int{"Create": 1, "Write": 2, "Remove": 4, "Rename": 8, "Chmod": 16}
+					chanOf := func(st ast.Stmt) (int, bool) {
+						es, ok := st.(*ast.ExprStmt)
+						if !ok {
+							return 0, false
+						}
+						switch exprStr2(c, es.X) {
+						case "writeSignalNonBlock(s.eventWrite)":
+							return 0, true
+						case "writeSignalNonBlock(s.eventDelete)":
+							return 1, true
+						}
+						return 0, false
+					}
+					var sigRows []string
+					okAll := true
+					for _, st := range sw.Body.List {
+						cc := st.(*ast.CaseClause)
+						if len(cc.List) != 1 || !strings.Contains(exprStr(c, cc.List[0]), "event.Op") {
+							if len(cc.List) == 0 { // a default case would catch every other event
+								okAll = false
+							}
+							continue
+						}
+						var atoms []ast.Expr
+						var split func(e ast.Expr)
+						split = func(e ast.Expr) {
+							if p, ok := e.(*ast.ParenExpr); ok {
+								split(p.X)
+								return
+							}
+							if b, ok := e.(*ast.BinaryExpr); ok && b.Op == token.LAND {
+								split(b.X)
+								split(b.Y)
+								return
+							}
+							atoms = append(atoms, e)
+						}
+						split(cc.List[0])
+						bit, needs := 0, false
+						for _, a := range atoms {
+							t := exprStr(c, a)
+							switch {
+							case t == "s.ReOpen":
+								needs = true
+							case strings.HasPrefix(t, "event.Op&fsnotify.") && strings.HasSuffix(t, "!=0") && bit == 0:
+								bit = opBits[strings.TrimSuffix(strings.TrimPrefix(t, "event.Op&fsnotify."), "!=0")]
+								if bit == 0 {
+									okAll = false
+								}
+							default:
+								okAll = false
+							}
+						}
+						if bit == 0 {
+							okAll = false
+						}
+						var sigs []string
+						for _, b := range cc.Body {
+							if ch, ok := chanOf(b); ok {
+								sigs = append(sigs, fmt.Sprintf("(false, %d)", ch))
+								continue
+							}
+							ifs, ok := b.(*ast.IfStmt)
+							if !ok || ifs.Init != nil || ifs.Else != nil || exprStr(c, ifs.Cond) != "s.ReOpen" {
+								okAll = false
+								continue
+							}
+							for _, b2 := range ifs.Body.List {
+								if ch, ok := chanOf(b2); ok {
+									sigs = append(sigs, fmt.Sprintf("(true, %d)", ch))
+								} else {
+									okAll = false
+								}
+							}
+						}
+						sigRows = append(sigRows, fmt.Sprintf("(%d, %v, [%s])", bit, needs, strings.Join(sigs, ", ")))
+					}
+					if !okAll {
+						sb.WriteString(untranslatable("watcherSignals"))
+					} else {
+						fmt.Fprintf(&sb, "/-- the cases of that `switch` that test `event.Op`, as data: (bit of the fsnotify Op, the case also requires\n    `s.ReOpen`, signals raised in its body: (only under `if s.ReOpen`, channel 0 = eventWrite / 1 = eventDelete)) -/\ndef watcherSignals : List (Nat × Bool × List (Bool × Nat)) := [%s]\n\n",
+							strings.Join(sigRows, ",\n  "))
+					}
 				}
 			}
 		} else {
